@@ -364,3 +364,143 @@ def run_cbor(run, P, units=('coap_oscore.c',)):
         for i, x, l in srcs:
             run.oblige('R-RANGE', True, '%s:cbor-site:%s' % (name, x))
     run.require(nsites >= 2 or run.fixture_mode, 'R-RANGE: only %d CBOR size sources found on the wire-facing surface' % nsites)
+
+
+# ---------------------------------------------------------------------------------------------------------------
+def run_cbor_reader(run, P, wire_units=('coap_oscore.c',), reader_unit='oscore_cbor.c'):
+    """R-RANGE (CBOR reader): the CBOR reader's only length checks are assert()s, which the shipped build compiles out.
+    For every reader function that wire-facing code calls (computed: functions of oscore_cbor.c with a (const uint8_t **cursor,
+    size_t *remaining) parameter pair called from coap_oscore.c, plus what they call in that unit), NDEBUG build:
+      every read through the cursor -- a dereference of *cursor, or a call of a primitive of that unit that does so with the
+      same two parameters (get_byte, get_byte_inc) -- is covered by a real test of *remaining on its path:
+        a test against 0/1 covers one read, a test against a non-constant count covers the reads that follow it.
+    A primitive is a reader function without any real test of *remaining; primitives are not judged themselves, their
+    callers are."""
+    run.rule('R-RANGE')
+
+    def pair(f):
+        cur = rem = None
+        for i, p in enumerate(f['params']):
+            t = p.get('t', '')
+            if t.replace(' ', '') in ('constuint8_t**', 'constunsignedchar**'):
+                cur = 'v%d' % p['id']
+            if t.replace(' ', '') in ('size_t*', 'unsignedlong*'):
+                rem = 'v%d' % p['id']
+        return (cur, rem) if cur and rem else None
+    readers = dict((f['name'], f) for f in P.lib_funcs() if f['unit'] == reader_unit and pair(f))
+
+    def tests_rem(f):
+        cur, rem = pair(f)
+        for b in f['blocks']:
+            c = (b.get('term') or {}).get('cond')
+            if c is not None and any(ap(x) == '*' + rem for x in walk(c) if isinstance(x, dict)):
+                return True
+        return False
+
+    def derefs_cursor(t, cur):
+        for x in walk(t):
+            if isinstance(x, dict) and x.get('k') in ('idx', 'sub', 'un'):
+                if x.get('k') == 'un' and x.get('op') != '*':
+                    continue
+                inner = strip(x.get('b') if x.get('k') in ('idx', 'sub') else x.get('e'))
+                # (*cursor)[k]  or  *(*cursor)  or  *(*cursor)++
+                while isinstance(inner, dict) and inner.get('k') == 'un' and inner.get('op') in ('++', '--', 'post++', 'post--'):
+                    inner = strip(inner.get('e'))
+                if isinstance(inner, dict) and inner.get('k') == 'un' and inner.get('op') == '*' and ap(inner.get('e')) == cur:
+                    return True
+        return False
+    prims = set(n for n, f in readers.items() if not tests_rem(f) and any(derefs_cursor(ev['e'], pair(f)[0]) for b, ev in P.events(f)))
+    # wire-reachable readers
+    wire = set()
+    for f in P.lib_funcs():
+        if f['unit'] in wire_units:
+            for b, ev in P.events(f):
+                t = ev['e']
+                if t.get('k') == 'call' and t.get('fn') in readers:
+                    wire.add(t['fn'])
+    work = list(wire)
+    while work:
+        n = work.pop()
+        for b, ev in P.events(readers[n]):
+            t = ev['e']
+            if t.get('k') == 'call' and t.get('fn') in readers and t['fn'] not in wire:
+                wire.add(t['fn'])
+                work.append(t['fn'])
+    judged = sorted(wire - prims)
+    run.require(bool(judged) or run.fixture_mode, 'R-RANGE: no wire-reachable CBOR reader function found')
+    run.notes.append('CBOR reader: primitives %s; wire-reachable and judged %s' % (sorted(prims), judged))
+    for name in judged:
+        f = readers[name]
+        cur, rem = pair(f)
+        remd = '*' + rem
+        run.instance('R-RANGE', '%s: cursor reads covered by a test of *%s' % (name, [p['n'] for p in f['params'] if 'v%d' % p['id'] == rem][0]))
+
+        def is_read(t):
+            if t.get('k') == 'call' and t.get('fn') in prims:
+                a = [ap(x) for x in t.get('a', [])]
+                return cur in a
+            return False
+
+        def on_event(ev, env, ctx):
+            t = ev['e']
+            rd = is_read(t) or (ev.get('top') and t.get('k') != 'call' and derefs_cursor(t, cur) and not any(isinstance(x, dict) and x.get('k') == 'call' for x in walk(t)))
+            if rd:
+                cov = env.ts.get('cov', 0)
+                run.oblige('R-RANGE', cov != 0, '%s:read-covered' % name)
+                if cov == 0:
+                    run.violation('R-RANGE', name, ev['loc'], 'cbor-read-untested',
+                                  'the CBOR cursor is read (%s) on a path that has not tested the remaining length since the last covered read: with NDEBUG the '
+                                  'assert() inside the primitive is gone, a truncated item is read behind the buffer and the remaining length wraps' % short(t)[:50], ctx.path())
+                    return None
+                if cov == 1:
+                    e = env.copy()
+                    e.ts['cov'] = 0
+                    return [apply_generic(ev, e, None)]
+                return None
+            if t.get('k') == 'asg' and ap(t['l']) == remd:
+                e = env.copy()
+                e.ts['cov'] = 0
+                return [apply_generic(ev, e, None)]
+            return None
+
+        def on_branch(b, s, env, ctx):
+            term = b.get('term') or {}
+            c = term.get('cond')
+            if c is None or len(b['succ']) != 2:
+                return env
+            truth = s == b['succ'][0]
+            c = strip(c)
+            while isinstance(c, dict) and c.get('k') == 'un' and c.get('op') == '!':
+                c = strip(c['e'])
+                truth = not truth
+            if isinstance(c, dict) and c.get('k') == 'un' and c.get('op') == '*' and ap(c) == remd:
+                if truth:
+                    e = env.copy()
+                    e.ts['cov'] = max(1, env.ts.get('cov', 0)) if env.ts.get('cov') != 'bulk' else 'bulk'
+                    return e
+                return env
+            if not (isinstance(c, dict) and c.get('k') == 'bin' and c.get('op') in ('==', '!=', '<', '<=', '>', '>=')):
+                return env
+            l, r = c['l'], c['r']
+            op = c['op']
+            if ap(r) == remd:
+                l, r = r, l
+                op = {'<': '>', '<=': '>=', '>': '<', '>=': '<=', '==': '==', '!=': '!='}[op]
+            if ap(l) != remd:
+                return env
+            if not truth:
+                op = {'==': '!=', '!=': '==', '<': '>=', '<=': '>', '>': '<=', '>=': '<'}[op]
+            K = const_int(r)
+            cov = None
+            if K is not None:
+                if (op == '!=' and K == 0) or (op == '>' and K >= 0) or (op == '>=' and K >= 1):
+                    cov = 'bulk' if (op in ('>', '>=') and K >= 8) else 1
+            else:
+                if op in ('>=', '>'):
+                    cov = 'bulk'
+            if cov is None:
+                return env
+            e = env.copy()
+            e.ts['cov'] = 'bulk' if 'bulk' in (cov, env.ts.get('cov')) else 1
+            return e
+        solve(f, Env({'cov': 0}), on_event, None, None, None, key_fn=lambda e: e.ts.get('cov'), on_branch=on_branch, max_envs=64)
